@@ -115,6 +115,8 @@ def run_case(case, trace_cache=True, schemas_text=None, aggregation_text=None, s
       run.events.append(['call', rec, snap(), sched.now])
     db.on_call = on_call
 
+    run.trigger_exc = None
+
     def do_stop():
       run.stop_time = sched.now
       run.stop_step = sched.steps
@@ -127,7 +129,11 @@ def run_case(case, trace_cache=True, schemas_text=None, aggregation_text=None, s
         'younger_than_lag': bool(lag) and any(sched.now - t <= lag for d in dict.values(cache) for t in d),
       }
       if stop_mode == 'orderly':
-        writer.shutdownModifyUpdateSpeed()      # the registered 'before shutdown' trigger
+        # the registered 'before shutdown' trigger; Twisted logs a trigger that raises and carries on stopping
+        try:
+          writer.shutdownModifyUpdateSpeed()
+        except Exception as e:  # noqa: what it leaves undone is judged on the data
+          run.trigger_exc = e
       reactor.running = False                   # what reactor.crash() does in the 'during' phase
 
     def recv_body():
